@@ -27,6 +27,7 @@ type vGate struct {
 	sched    *vSched       // optional scheduler (C16)
 	disabled bool
 	readOnly bool // every writing statement (and commit) fails: a store that still answers reads
+	refuse   bool // every operation fails at once: a server that is down and says so (connection refused)
 }
 
 var (
@@ -46,7 +47,7 @@ func (g *vGate) pass(op string) error {
 	g.count++
 	n := g.count
 	g.log = append(g.log, op)
-	fail := g.failAt != 0 && n == g.failAt
+	fail := (g.failAt != 0 && n == g.failAt) || g.refuse
 	if g.readOnly && (op == "commit" || strings.HasPrefix(op, "exec:")) {
 		fail = true
 	}
